@@ -65,7 +65,7 @@ class CollectionValue(GenericValue):
                 old_node is not None
                 and not isinstance(old_value, Unmanaged)
                 and not isinstance(old_node, ast.JoinedStr)
-                and self._file._token_of_node(old_node) != new_token
+                and not self._file._same_tokens(old_node, new_token)
             ):
                 new_code = self._file._token_to_code(new_token)
 
